@@ -165,7 +165,10 @@ impl Callable for Access {
                 bail!("Can not access a tuple with: {}", index)
             };
             if let Type::Tuple(mut t) = obj {
-                Ok(t.remove(*index as usize))
+                match usize::try_from(*index) {
+                    Ok(i) if i < t.len() => Ok(t.remove(i)),
+                    _ => bail!("tuple index out of range: {}", index),
+                }
             } else {
                 bail!("Can not access type: {}", obj)
             }
@@ -215,7 +218,10 @@ impl Callable for Access {
                 bail!("Can not access a tuple with: {}", index)
             };
             if let Value::Tuple(t) = obj {
-                t[*index as usize].value_of(ctx)
+                match usize::try_from(*index).ok().and_then(|i| t.as_slice().get(i)) {
+                    Some(v) => v.value_of(ctx),
+                    None => bail!("tuple index out of range: {}", index),
+                }
             } else {
                 bail!("Can not access type: {}", obj)
             }
